@@ -298,6 +298,11 @@ func floatsToStrings(f []float64) []string {
 // runHistChild runs the cases in a fresh process of this binary; returns the digests (and the
 // dumped outputs of the last case).
 func runHistChild(dir string, list []*Case, dump bool) ([]string, []string, error) {
+	return runHistChildProcs(dir, list, dump, 2)
+}
+
+// runHistChildProcs is runHistChild with the child's GOMAXPROCS.
+func runHistChildProcs(dir string, list []*Case, dump bool, procs int) ([]string, []string, error) {
 	f, err := os.CreateTemp(dir, "hist-*.json")
 	if err != nil {
 		return nil, nil, err
@@ -307,7 +312,7 @@ func runHistChild(dir string, list []*Case, dump bool) ([]string, []string, erro
 	f.Write(b)
 	f.Close()
 	cmd := exec.Command(os.Args[0], "-test.run", "^TestSim$", "-test.timeout", "0")
-	cmd.Env = append(os.Environ(), "VMODE=histchild", "VHIST="+f.Name(), "GOMAXPROCS=2")
+	cmd.Env = append(os.Environ(), "VMODE=histchild", "VHIST="+f.Name(), fmt.Sprintf("GOMAXPROCS=%d", procs))
 	if dump {
 		cmd.Env = append(cmd.Env, "VHISTDUMP=1")
 	}
@@ -548,5 +553,183 @@ func historyReplayMain(rf *ReplayFile, path string) int {
 		return 1
 	}
 	fmt.Printf("NOT REPRODUCED %s (the case gives the same result alone and after the recorded history)\n", rf.Violation.Key())
+	return 0
+}
+
+// C03, "the number of OS threads" part at every tier: the same single-call cases are evaluated by
+// fresh child processes that differ only in GOMAXPROCS; every case must give bit-identical results
+// in all of them (code that sizes buffers, lanes or batches by the processor count shows here, also
+// under the canonical schedule).
+
+var procsLevels = []int{1, 2, 4, 16}
+
+func genProcCanaries(rng *rand.Rand, tier string, n int) []*Case {
+	var out []*Case
+	for len(out) < n {
+		b := c09{}.Gen(rng, tier, len(out))
+		b.Prop = "C03"
+		b.Mode = "sequential"
+		b.Policy = simrt.PolicySpec{Name: "fifo"}
+		b.Cap = 0
+		b.Variant = 0
+		if b.Family == "ind" && rng.Intn(2) == 0 {
+			if e := indByName[b.Entity]; e.NCfg > 0 {
+				b.Cfg = make([]int, e.NCfg) // long windows: a quarter, half a year
+				for i := range b.Cfg {
+					b.Cfg[i] = 33 + rng.Intn(100)
+				}
+				b.Scale = 1
+			}
+		}
+		var w int
+		if b.Family == "ind" {
+			w = makeInd(indByName[b.Entity], b.Cfg, b.Scale).Idle
+		} else {
+			w = max(0, measureWarmup(b))
+		}
+		if w < 0 || w > 400 {
+			continue
+		}
+		b.Calls = b.Calls[:1]
+		b.Calls[0].Len = w + 3 + rng.Intn(12)
+		b.Calls[0].Report = b.Calls[0].Report && b.Family == "strat"
+		out = append(out, b)
+	}
+	return out
+}
+
+func procsVerdict(dir string, c *Case, a, b int) (bool, string, error) {
+	da, fa, err := runHistChildProcs(dir, []*Case{c}, true, a)
+	if err != nil {
+		return false, "", err
+	}
+	db, fb, err := runHistChildProcs(dir, []*Case{c}, true, b)
+	if err != nil {
+		return false, "", err
+	}
+	if da[0] == db[0] {
+		return false, "", nil
+	}
+	where := "termination or report text"
+	for i := 0; i < len(fa) && i < len(fb); i++ {
+		if fa[i] != fb[i] {
+			where = fmt.Sprintf("value %d is %s with GOMAXPROCS=%d and %s with GOMAXPROCS=%d", i, fa[i], a, fb[i], b)
+			break
+		}
+	}
+	if len(fa) != len(fb) {
+		where = fmt.Sprintf("%d values with GOMAXPROCS=%d, %d with GOMAXPROCS=%d", len(fa), a, len(fb), b)
+	}
+	return true, where, nil
+}
+
+// procsMain is the parent of the GOMAXPROCS part (one per round, beside the workers).
+func procsMain() int {
+	prop := envOr("VCHECK", "C03")
+	tier := envOr("VERIF_TIER", "quick")
+	base := envInt("VERIF_SEED", 1)
+	round := envInt("VROUND", 0)
+	budget := time.Duration(envInt("VBUDGET_S", 20)) * time.Second
+	outPath := os.Getenv("VOUT")
+	replayDir := envOr("VREPLAYDIR", "/verif/out/replays")
+	dir := envOr("VFSDIR", os.TempDir())
+	known := loadKnown(envOr("VKNOWN", "/verif/known_findings.json"))
+	st := newStats()
+	st.Prop, st.Tier, st.Seed, st.Worker = prop, tier, int64(base), 901
+	start := time.Now()
+	novel := map[string]bool{}
+	for batch := 0; time.Since(start) < budget*6/10; batch++ {
+		seed := int64(splitmix(uint64(base)*3000017+uint64(round)*15485867+uint64(batch)*7919+5) >> 1)
+		rng := rand.New(rand.NewSource(seed))
+		can := genProcCanaries(rng, tier, 220)
+		digs := map[int][]string{}
+		for _, p := range procsLevels {
+			if p != procsLevels[0] && p != procsLevels[1] && time.Since(start) > budget {
+				break
+			}
+			d, _, err := runHistChildProcs(dir, can, false, p)
+			if err != nil {
+				st.Infra = append(st.Infra, err.Error())
+				break
+			}
+			digs[p] = d
+			st.Sims += len(can)
+			st.Faults[fmt.Sprintf("process-with-GOMAXPROCS=%d", p)]++
+		}
+		st.Evaluations += len(can)
+		ref := digs[procsLevels[0]]
+		for ci, c := range can {
+			if ref == nil || len(st.Violations) >= 3 {
+				break
+			}
+			ent := c.Entity
+			if c.Family == "strat" {
+				ent = specName(c.spec())
+			}
+			st.Entities[ent]++
+			bad := 0
+			for _, p := range procsLevels[1:] {
+				if d := digs[p]; d != nil && d[ci] != ref[ci] {
+					bad = p
+					break
+				}
+			}
+			if bad == 0 {
+				st.Probes["cases-identical-for-every-GOMAXPROCS"]++
+				st.cell(c.Family, ent, "gomaxprocs")
+				continue
+			}
+			v := Violation{Prop: "C03", Entity: ent, Kind: "depends-on-gomaxprocs", Regime: "os-threads"}
+			if _, ok := known.Match(v); ok || novel[v.Key()] {
+				continue
+			}
+			diff, where, err := procsVerdict(dir, c, procsLevels[0], bad)
+			if err != nil || !diff {
+				st.Infra = append(st.Infra, "GOMAXPROCS difference of "+canaryDesc(c)+" did not reproduce on its own")
+				continue
+			}
+			novel[v.Key()] = true
+			v.Detail = fmt.Sprintf("%s: the result depends on the number of OS threads: %s", canaryDesc(c), where)
+			os.MkdirAll(replayDir, 0o755)
+			path := filepath.Join(replayDir, fmt.Sprintf("C03-%s-%d.json", sanitize(ent+"-gomaxprocs"), seed))
+			rf := ReplayFile{Violation: v, Case: c, ProcsPair: []int{procsLevels[0], bad},
+				Note: "replay: /verif/check C03 replay " + path + " (rebuilds from /repo; evaluates the case in two fresh processes with the two GOMAXPROCS values; expects different results)"}
+			rb, _ := json.MarshalIndent(rf, "", " ")
+			os.WriteFile(path, rb, 0o644)
+			st.Violations = append(st.Violations, ViolationReport{Violation: v, Replay: path, Seed: seed})
+		}
+		if len(st.Violations) >= 3 || len(st.Infra) > 0 {
+			break
+		}
+	}
+	st.WallS = time.Since(start).Seconds()
+	for k := range st.Cells {
+		st.CellList = append(st.CellList, k)
+	}
+	sort.Strings(st.CellList)
+	b, _ := json.Marshal(st)
+	if outPath != "" {
+		if err := os.WriteFile(outPath, b, 0o644); err != nil {
+			fmt.Fprintln(os.Stderr, err)
+			return 2
+		}
+	}
+	return 0
+}
+
+// procsReplayMain re-runs a GOMAXPROCS replay file.
+func procsReplayMain(rf *ReplayFile, path string) int {
+	dir := envOr("VFSDIR", os.TempDir())
+	diff, where, err := procsVerdict(dir, rf.Case, rf.ProcsPair[0], rf.ProcsPair[1])
+	if err != nil {
+		fmt.Printf("infrastructure: %v\n", err)
+		return 2
+	}
+	if diff {
+		fmt.Printf("REPRODUCED %s: %s\n", rf.Violation.Key(), where)
+		fmt.Printf("VIOLATION property=%s replay=%s\n", rf.Violation.Prop, path)
+		return 1
+	}
+	fmt.Printf("NOT REPRODUCED %s (the case gives the same result with both GOMAXPROCS values)\n", rf.Violation.Key())
 	return 0
 }
